@@ -9,8 +9,8 @@ LEVEL_NOTE = ("Trusted: the Lean 4.33 kernel; axioms propext / Classical.choice 
               "no native_decide, no sorry); the hand-written Lean model of the Rust (lean/UnicLocale/Model) — tied to /repo's current "
               "source by the correspondence run of this check (differential, bounded by its generator streams) and, for the tables, by "
               "the translator that re-reads the compiled statics on every run (the CLDR JSON translator is cross-checked by an independent "
-              "reader written in Lean), and, for the functions listed in the evidence under source_tie (124: subtag code, parsers with their loops, "
-              "Display impls, mutators, the likely-subtags cascade, the integer conversions, the proc macros), by the translator srclean "
+              "reader written in Lean), and, for the functions listed in the evidence under source_tie (129: subtag code, parsers with their loops, "
+              "Display impls, mutators, the likely-subtags cascade, the integer conversions, the serde impls, the proc and list macros), by the translator srclean "
               "(Rust source text -> Lean definition, regenerated on every run) with a theorem UL.SrcTie.<f>_eq that the source-derived "
               "definition equals the model's for all inputs; the Spec files as the reading of the property; "
               "tinystr / std containers / derived traits modelled by contract.")
@@ -137,12 +137,15 @@ TEXT = {
             "literal parsed at build time by the source-derived FromStr, every quote! body read as a term of the expansion language UL.MTok) and "
             "proved equal to that model (UL.SrcTie.Macros.*_eq), so the theorems hold of the source-derived macros against the source-derived "
             "run-time parsers (SrcTie/TransferMacros.lean). By contract: how rustc evaluates an expansion (Model/MacroSem.lean: interpolated integer = "
-            "that literal, from_raw_unchecked = unpack, type error = compile error), proc_macro_hack / syn / quote, the macro_rules list macros; that "
+            "that literal, from_raw_unchecked = unpack, type error = compile error), proc_macro_hack / syn / quote, macro_rules' matching (the list macros "
+            "are read from their macro_rules text: the two-arm shape over a translated element macro); that "
             "contract is exercised on every run by compiling and running a generated crate (one invocation per line, errors attributed to lines "
             "through the expansion chain) against /repo.",
             "proof over the expansions as the macro crates' source text defines them; rustc's evaluation of an expansion by contract, exercised by "
             "a generated program"),
-    "C19": ("Theorems about the model of serde.rs: serialize = the canonical string (ASCII letters, digits, '-' only, so no JSON escape); "
+    "C19": ("Source tie: the two impls are translated from serde.rs' own text (which string is serialised = the source-derived Display; the visitor defines "
+            "visit_str only; visit_str = the source-derived FromStr) and proved equal to the model, so the theorems below hold of the source-derived "
+            "impls, printer and parser (SrcTie/TransferSerde.lean). Theorems about the model of serde.rs: serialize = the canonical string (ASCII letters, digits, '-' only, so no JSON escape); "
             "deserialize(str s) = from_bytes s; deserialize(serialize x) = ok x for every obtainable x (C05); non-string and ill-formed "
             "inputs are errors; never a panic. serde / serde_json are modelled by contract, exercised by the serde stream (JSON texts with "
             "random escapes, non-string values, ill-formed text) through from_str and from_value; every JSON string is also decoded and handed to "
